@@ -126,9 +126,9 @@ func readOneExpr(tag *string) (string, error) {
 			*tag = s[idx+1:]
 			return s[:idx], nil
 		}
-		if count > 0 {
-			patch++
-		}
+		// (the number of quotes seen so far, not the number of pieces that had one:
+		// pieces with 1, 2 and 1 quotes are two complete literals)
+		patch += count
 	}
 	return "", fmt.Errorf("syntax error: %q unclosed single quote \"'\"", s)
 }
